@@ -26,6 +26,12 @@ groups:
                                             BodyNonAtomic (both harness only: the same checkBody/applyResults sequence)
   A <dom> <stage>                           (with B) the answer for _dmarc.<dom> arrives at that stage (0 at once,
                                             k while the checks of block k run, 4 after all of them)
+  W <wrap|->+                               (reply only) how the check of each block hands its results over (one token per
+                                            entry of B, or one token for the single global check of a run without B):
+                                            stage c|s|r|b (CheckConnection, CheckSender, CheckRcpt, CheckBody) followed by any of
+                                            i (a Reason, neither Reject nor Quarantine), q (Reason and Quarantine), h (header
+                                            fields of its own), d (the later blocks reference the same check again);
+                                            answered with `pipelineChecks`
   t <dom> <lower> <publicSuffix(lower)> <etld1(lower)|!>     library answers for a domain
   c <dom> <class>                           strings.EqualFold classes (same class ⇔ EqualFold)
   o <dom> <org>                             the KNOWN organizational domain (hand-written list; `laws` only)
@@ -52,6 +58,7 @@ structure Tabs where
   hdr : List FieldParse := []      -- reversed
   res : List AuthRes := []         -- reversed
   blocks : Option (List (Option Nat)) := none
+  wraps : Option (List (Option (Stage × Bool × Bool × Bool × Bool))) := none
   arr : List (Str × Nat) := []
 
 def groups (toks : List String) : List (List String) :=
@@ -84,6 +91,21 @@ def txt? (s : String) : Option Txt :=
     pure (.dmarc (some ⟨ad, as, p, sp, pct⟩))
   | _ => none
 
+/-- a wrap token: stage letter c|s|r|b, then any of i (reason, no action), q (reason and
+quarantine), h (header fields), d (referenced again by the later blocks), each once, in any order, not i together with q; "-": no check -/
+def wrap? (s : String) : Option (Option (Stage × Bool × Bool × Bool × Bool)) :=
+  if s == "-" then some none else
+  match s.toList with
+  | [] => none
+  | c :: fl => do
+    let st ← match c with
+      | 'c' => some Stage.conn | 's' => some Stage.sender | 'r' => some Stage.rcpt | 'b' => some Stage.body
+      | _ => none
+    if !(fl.all fun x => x == 'i' || x == 'q' || x == 'h' || x == 'd') then none
+    else if fl.eraseDups.length != fl.length then none
+    else if fl.contains 'i' && fl.contains 'q' then none
+    else pure (some (st, fl.contains 'i' || fl.contains 'q', fl.contains 'q', fl.contains 'h', fl.contains 'd'))
+
 def addr? (s : String) : Option (Option Str) :=
   if s == "!" then some none else (dom? s).map some
 
@@ -111,6 +133,9 @@ def parse (gs : List (List String)) : Option Tabs :=
       if !(q.startsWith "q") || (how != "smtp" && how != "lmtp") then none else do
       let cnt (x : String) : Option (Option Nat) := if x == "-" then some none else x.toNat?.map some
       pure { T with blocks := some [← cnt a, ← cnt b, ← cnt c] }
+    | "W" :: ws => do
+      if ws.isEmpty then none else
+      pure { T with wraps := some (← ws.mapM wrap?) }
     | ["A", d, st] => do pure { T with arr := T.arr ++ [(← dom? d, ← st.toNat?)] }
     | ["t", d, l, p, e] => do
       let e ← if e == "!" then some none else (dom? e).map some
@@ -158,6 +183,17 @@ def splitBlocks : List (Option Nat) → List AuthRes → Option (List (List Auth
   | none :: bs, rs => splitBlocks bs rs
   | some n :: bs, rs =>
     if rs.length < n then none else (splitBlocks bs (rs.drop n)).map (rs.take n :: ·)
+
+/-- the checks of a run: block k (from `k`) with its share of the results and its wrap -/
+def buildChecks : Nat → List (Option Nat) → List (Option (Stage × Bool × Bool × Bool × Bool)) → List AuthRes →
+    Option (List CheckRes)
+  | _, [], [], [] => some []
+  | k, none :: bs, none :: ws, rs => buildChecks (k + 1) bs ws rs
+  | k, some n :: bs, some (st, reason, q, h, d) :: ws, rs =>
+    if rs.length < n then none else
+    (buildChecks (k + 1) bs ws (rs.drop n)).map
+      ({ block := k, stage := st, results := rs.take n, reason := reason, quarantine := q, header := h, again := d } :: ·)
+  | _, _, _, _ => none
 
 def authDoms : AuthRes → List Str
   | .dkim _ d _ => [d]
@@ -226,9 +262,20 @@ def handle (toks : List String) : String :=
           let r := verify P T.dnsFn T.hdr T.res rnd
           if op == "verify" then
             s!"{showVal r.1.val} {showReason r.1.reason} {b01 r.1.spfAligned} {b01 r.1.dkimAligned} {showPol r.2}"
-          else match T.blocks with
-            | none => showReply (applyResults (q == "1") r)
-            | some bl =>
+          else match T.blocks, T.wraps with
+            | none, none => showReply (applyResults (q == "1") r)
+            | none, some [some (st, reason, wq, h, d)] =>
+              -- one global check, every answer at once
+              showReply (pipelineChecks P T.dnsFn (fun _ => 0) T.hdr
+                [{ block := 0, stage := st, results := T.res, reason := reason, quarantine := wq, header := h, again := d }] rnd (q == "1"))
+            | none, some _ => "bad-op"
+            | some bl, some ws =>
+              match buildChecks 0 bl ws T.res with
+              | none => "bad-op"
+              | some cs =>
+                if !(T.dns.all fun p => (T.arrFn p.1).isSome) then "missing" else
+                showReply (pipelineChecks P T.dnsFn (fun n => (T.arrFn n).getD 0) T.hdr cs rnd (q == "1"))
+            | some bl, none =>
               -- pipeline run with a timing: the model of the asynchronous hand-off
               match splitBlocks bl T.res with
               | none => "bad-op"
